@@ -226,17 +226,39 @@ def eval_call(repo, ci, spec, quantized):
   return pe, o, out, owner, fn
 
 
+def variants():
+  """Layer specs, plus option variants that select other branches of
+  call()."""
+  out = []
+  for qual, spec in sorted(SPECS.items()):
+    out.append((qual, spec, ""))
+    if qual.endswith(".QConv2D"):
+      g2 = dict(spec, geom=dict(spec["geom"], groups=2))
+      out.append((qual, g2, "groups=2"))
+      mk = dict(spec, geom=dict(spec["geom"], _mask=W("mask")))
+      out.append((qual, mk, "masked"))
+      both = dict(spec, geom=dict(spec["geom"], groups=2, _mask=W("mask")))
+      out.append((qual, both, "groups=2,masked"))
+    if qual.endswith(".QGRUCell"):
+      ra = dict(spec, geom=dict(reset_after=True))
+      out.append((qual, ra, "reset_after"))
+    if spec.get("rnn"):
+      i2 = dict(spec, geom=dict(spec.get("geom", {}), implementation=2))
+      out.append((qual, i2, "implementation=2"))
+  return out
+
+
 def rule_layers(rep, repo):
   n = 0
-  for qual, spec in sorted(SPECS.items()):
+  for qual, spec, vname in variants():
     ci = repo.classes.get(qual)
     if ci is None:
       raise AnalysisError("anchor-missing class %s" % qual)
     unit = "%s::%s.call" % (ci.module.relpath, ci.name)
     rep.unit(unit)
     for quantized in (True, False):
-      cfg = "%s(%s)" % (ci.name, "all quantizers set" if quantized
-                        else "no quantizers")
+      cfg = "%s(%s%s)" % (ci.name, "all quantizers set" if quantized
+                          else "no quantizers", "," + vname if vname else "")
       try:
         pe, o, out, owner, fn = eval_call(repo, ci, spec, quantized)
       except PyRaise as e:
